@@ -3,7 +3,7 @@
    [vrec r p s] stands for VerifyBeacon / VerifyRecovered under the chain's distributed public
    key on the digest of (round r, previous signature p) and signature s. *)
 From Coq Require Import ZArith List Bool Lia.
-From DV Require Import Model.Time Model.Node Model.Serve Model.HttpWait Proofs.NodeProofs Proofs.HttpWaitProofs Gen.Consts.
+From DV Require Import Model.Time Model.Node Model.Serve Model.HttpWait Model.Bootstrap Proofs.NodeProofs Proofs.HttpWaitProofs Gen.Consts.
 Import ListNotations.
 Open Scope Z_scope.
 
@@ -80,6 +80,24 @@ Print Assumptions C01_chain_stays_valid.
 Print Assumptions C01_serve_exact.
 Print Assumptions C01_served_verifies.
 Print Assumptions C01_randomness.
+
+(* Bootstrap of the in-memory store from the peers (storeCurrentFromPeerNetwork): whatever the
+   peers answer, in whatever order, to the request for the current round and for the latest round
+   (errors, beacons of any round, forged or foreign signatures, round 0), what is put into the
+   store is the genesis beacon derived from the node's own group or a beacon that verifies under
+   the group key; otherwise nothing is stored. *)
+Theorem C01_bootstrap : forall (vrec : Z -> Z -> Z -> bool) genesis target ans_target ans_latest b,
+  bootstrap vrec genesis target ans_target ans_latest = BPut b ->
+  b = genesis \/ vrec (b_round b) (b_prev b) (b_sig b) = true.
+Proof.
+  intros vrec genesis target aT aL b. unfold bootstrap.
+  destruct (target <? 2); [discriminate|].
+  destruct (match first_answer aT with Some x => Some x | None => first_answer aL end) as [x|]; [|discriminate].
+  destruct (b_round x =? 0); [intros H; inversion H; left; reflexivity|].
+  destruct (vrec (b_round x) (b_prev x) (b_sig x)) eqn:E; [|discriminate].
+  intros H; inversion H; subst. right. exact E.
+Qed.
+Print Assumptions C01_bootstrap.
 
 (* HTTP relay (handler/http): for EVERY history of requests, watch-stream items (consecutive,
    skipping or repeated rounds) and stream failures, every answer a client receives is either
